@@ -85,6 +85,9 @@ def preprocess_mcwf(
 
     # 1. Initial State to Vector
     psi = initial_state.to_vec()
+    # to_vec() counts site 0 as the least significant index, the operators below are embedded with site 0 as
+    # the leftmost Kronecker factor: bring the state vector to the same convention
+    psi = psi.reshape([2] * num_sites).transpose(tuple(reversed(range(num_sites)))).reshape(-1)
     psi /= np.linalg.norm(psi)
 
     # 2. Convert Hamiltonian MPO to sparse matrix
